@@ -21,22 +21,23 @@ def of(*arrays):
             ptr_lib = "cuda"
         else:
             ptr_lib = ak.operations.convert.kernels(array)
-            if ptr_lib is None:
-                pass
-            elif ptr_lib == "cpu":
-                libs.add("cpu")
-            elif ptr_lib == "cuda":
-                libs.add("cuda")
-            else:
-                raise ValueError(
-                    """structure mixes 'cpu' and 'cuda' buffers; use one of
+
+        if ptr_lib is None:
+            pass
+        elif ptr_lib == "cpu":
+            libs.add("cpu")
+        elif ptr_lib == "cuda":
+            libs.add("cuda")
+        else:
+            raise ValueError(
+                """structure mixes 'cpu' and 'cuda' buffers; use one of
 
     ak.to_kernels(array, 'cpu')
     ak.to_kernels(array, 'cuda')
 
 to obtain an unmixed array in main memory or the GPU(s)."""
-                    + ak._util.exception_suffix(__file__)
-                )
+                + ak._util.exception_suffix(__file__)
+            )
 
     if libs == set() or libs == set(["cpu"]):
         return Numpy.instance()
